@@ -8,7 +8,7 @@
    the pinned source, [jcf_fixed] all guards; tools/props/c18.py decides by differential runs which
    record describes the source under test.  The theorems named [..._refuted] are findings about
    [jcf_pinned]/[png_pinned]; [jcf_safe]/[png_read_safe] are what holds once the guards exist. *)
-From Coq Require Import List NArith ZArith Arith Bool.
+From Coq Require Import List NArith ZArith Arith Bool Lia.
 From M4 Require Import Base.Bits Lin.Mat Sys.IO Sys.IOProofs.
 Import ListNotations.
 
@@ -139,7 +139,7 @@ Proof.
   split; [reflexivity|]. split.
   - intros [|[|i]]; cbn [nth]; reflexivity.
   - intros q Hq. do 5 (destruct q as [|q]; [vm_compute; reflexivity|]). exfalso.
-    repeat apply Nat.succ_lt_mono in Hq. inversion Hq.
+    lia.
 Qed.
 Example png_mat_example : wf (mk 2 5 [19; 4]%N) /\ (1 <= nc (mk 2 5 [19; 4]%N)) /\
   png_write (mk 2 5 [19; 4]%N) =
